@@ -1663,14 +1663,13 @@ impl Planner {
                 LogicalAggregateFunction::Count | LogicalAggregateFunction::CountNonNull => {
                     LogicalType::Int64
                 }
-                LogicalAggregateFunction::Sum => LogicalType::Int64,
+                // SUM is Int64 or Float64 depending on its inputs, MIN/MAX preserve the input
+                // type (numbers, strings, booleans): a typed vector would replace every result
+                // of another type by its default value
+                LogicalAggregateFunction::Sum
+                | LogicalAggregateFunction::Min
+                | LogicalAggregateFunction::Max => LogicalType::Any,
                 LogicalAggregateFunction::Avg => LogicalType::Float64,
-                LogicalAggregateFunction::Min | LogicalAggregateFunction::Max => {
-                    // MIN/MAX preserve input type; use Int64 as default for numeric comparisons
-                    // since the aggregate can return any Value type, but the most common case
-                    // is numeric values from property expressions
-                    LogicalType::Int64
-                }
                 LogicalAggregateFunction::Collect => LogicalType::Any, // List type (using Any since List is a complex type)
                 // Statistical functions return Float64
                 LogicalAggregateFunction::StdDev
